@@ -68,9 +68,12 @@ pub struct Layout {
     pub extra_auth_before: usize,
     pub extra_auth_after: usize,
     pub second_cookie: bool,
-    /// fields inside the ciphertext: 0 none, else n fields (unknown / placeholder / cookie mix)
-    pub enc_fields: usize,
-    pub enc_placeholders: usize,
+    /// fields inside the ciphertext, in wire order: (kind, body length); kind 0 = NTS cookie (random
+    /// body), 1 = cookie placeholder, 2 = unique identifier, 3 = unknown; length usize::MAX = "as long
+    /// as the presented cookie"
+    pub enc: Vec<(u8, usize)>,
+    /// body length of the placeholders in the authenticated part, if not derived from the cookie length
+    pub placeholder_abs: Option<usize>,
     pub trailing_untrusted: usize,
     pub fault: AuthFault,
     pub nonce_len: usize,
@@ -91,8 +94,8 @@ impl Layout {
             extra_auth_before: 0,
             extra_auth_after: 0,
             second_cookie: false,
-            enc_fields: 0,
-            enc_placeholders: 0,
+            enc: vec![],
+            placeholder_abs: None,
             trailing_untrusted: 0,
             fault: AuthFault::None,
             nonce_len: 16,
@@ -113,11 +116,25 @@ impl Layout {
         if !l.real_builder {
             l.extra_auth_before = [0, 1, 2][p.below("lay.extra_before", 3) as usize];
             l.placeholder_delta = [0, 0, -4, 4, -64, 40][p.below("lay.ph_delta", 6) as usize];
-            l.enc_fields = [0, 0, 1, 3][p.below("lay.enc", 4) as usize];
-            l.enc_placeholders = [0, 0, 1, 4][p.below("lay.enc_ph", 4) as usize];
+            // every field kind the server reacts to may also sit inside the ciphertext, any count / order / size
+            let n_enc = [0usize, 0, 1, 1, 2, 3, 4, 6][p.below("lay.enc", 8) as usize];
+            for _ in 0..n_enc {
+                let kind = p.below("lay.enc_kind", 4) as u8;
+                let len = match p.below("lay.enc_len_class", 4) {
+                    0 => usize::MAX,
+                    1 => [0usize, 1, 4, 21, 22, 100, 103, 104, 105, 108, 167, 168, 172, 200][p.below("lay.enc_len_edge", 14) as usize],
+                    _ => p.below("lay.enc_len", 201) as usize,
+                };
+                l.enc.push((kind, len));
+            }
+            if p.below("lay.ph_abs", 3) == 2 {
+                l.placeholder_abs = Some(p.below("lay.ph_len", 201) as usize);
+            }
             l.trailing_untrusted = [0, 0, 1, 2][p.below("lay.trailing", 4) as usize];
             l.uid_len = [32, 32, 36, 64][p.below("lay.uid", 4) as usize];
             l.auth_pad = [0, 0, 4, 8][p.below("lay.auth_pad", 4) as usize];
+            // RFC 8915 allows any nonce length; unaligned ones leave padding bytes inside the authenticator
+            l.nonce_len = [16usize, 16, 16, 16, 12, 15, 17, 24, 32][p.below("lay.nonce_len", 9) as usize];
             if allow_faults {
                 l.second_cookie = p.odds("lay.second_cookie", 1, 12);
                 l.fault = match p.below("lay.fault", 14) {
@@ -238,7 +255,7 @@ fn build_own(p: &mut dyn Pick, keys: &SessionKeys, cookie: &[u8], l: &Layout, wr
         lens.push(cookie.len());
         cookies_before_auth += 1;
     }
-    let ph_len = (cookie.len() as i32 + l.placeholder_delta).max(0) as usize;
+    let ph_len = l.placeholder_abs.unwrap_or((cookie.len() as i32 + l.placeholder_delta).max(0) as usize);
     for _ in 0..l.placeholders {
         let before = out.len();
         wire::put_ef(&mut out, T_PLACEHOLDER, &vec![0u8; ph_len], 16, v5);
@@ -259,15 +276,21 @@ fn build_own(p: &mut dyn Pick, keys: &SessionKeys, cookie: &[u8], l: &Layout, wr
     }
     // fields inside the ciphertext (minimum size 0 there, RFC 8915 5.5)
     let mut pt = vec![];
-    for i in 0..l.enc_fields {
-        let n = 4 * p.below("req.enc_len", 6) as usize;
-        let _ = i;
-        wire::put_ef(&mut pt, unknown_type(p), &p.bytes("req.enc", n), 0, v5);
-    }
-    for _ in 0..l.enc_placeholders {
+    for (kind, len) in &l.enc {
+        let n = if *len == usize::MAX { cookie.len() } else { *len };
         let before = pt.len();
-        wire::put_ef(&mut pt, T_PLACEHOLDER, &vec![0u8; ph_len], 0, v5);
-        lens.push(wire::be16(&pt, before + 2) - 4);
+        match kind {
+            0 => {
+                wire::put_ef(&mut pt, T_COOKIE, &p.bytes("req.enc_cookie", n), 0, v5);
+                lens.push(wire::be16(&pt, before + 2) - 4);
+            }
+            1 => {
+                wire::put_ef(&mut pt, T_PLACEHOLDER, &vec![0u8; n], 0, v5);
+                lens.push(wire::be16(&pt, before + 2) - 4);
+            }
+            2 => wire::put_ef(&mut pt, T_UID, &p.bytes("req.enc_uid", n), 0, v5),
+            _ => wire::put_ef(&mut pt, unknown_type(p), &p.bytes("req.enc", n), 0, v5),
+        }
     }
     let nonce = p.bytes("req.nonce", l.nonce_len);
     let mut auth_genuine = true;
